@@ -411,6 +411,20 @@ pub fn ntru_gen(
         let f = gen_poly(n, rng);
         let g = gen_poly(n, rng);
 
+        // f and g must fit the fixed-width fields of the secret key encoding
+        let fg_limit: i16 = match n {
+            1024 => 1 << 4,
+            512 => 1 << 5,
+            _ => 1 << 7,
+        };
+        if f.coefficients
+            .iter()
+            .chain(g.coefficients.iter())
+            .any(|c| c.abs() >= fg_limit)
+        {
+            continue;
+        }
+
         let f_ntt = f.map(|&i| Felt::new(i)).fft();
         if f_ntt.coefficients.iter().any(|e| e.is_zero()) {
             continue;
@@ -423,6 +437,16 @@ pub fn ntru_gen(
         if let Some((capital_f, capital_g)) =
             ntru_solve_entrypoint(f.map(|&i| i as i32), g.map(|&i| i as i32))
         {
+            // likewise F (and G, which the reference decoder recomputes and
+            // checks) must fit eight bits; otherwise try again
+            if capital_f
+                .coefficients
+                .iter()
+                .chain(capital_g.coefficients.iter())
+                .any(|c| c.abs() >= (1 << 7))
+            {
+                continue;
+            }
             return (
                 f,
                 g,
